@@ -85,6 +85,8 @@ def _gen_panel(rng, tier, profile, stress=False, wide=False, nine=False):
     style = 'digits'
   if style == 'words':
     pool = ['aa', 'bb', 'cc', 'dd', 'ee', 'ff', 'gg', 'hh']
+    if nine:
+      pool += ['ii', 'jj']
     rng.shuffle(pool)
     geos = pool[:n_geos]
   else:
@@ -510,9 +512,12 @@ class Env:
     only produce a (deterministic, replayable) disagreement -- on code that
     has the defect.
     """
+    return self.build(self.reference_set())
+
+  def reference_set(self):
     if self._ref_mods is None:
-      self._ref_mods = tuple(core.reference_modules(*MODULES))
-    return self.build(self._ref_mods)
+      self._ref_mods = core.reference_modules(*MODULES)
+    return self._ref_mods
 
   def build(self, mods=None):
     """(mm, caller's frame, caller's table, caller's parameter object)."""
@@ -673,7 +678,10 @@ def execute(desc):
     ref_seed[0] = (ref_seed[0] * 1103515245 + 12345) % (2**31)
     rng.seed(ref_seed[0])
     try:
-      return fn()
+      # by-name lookups (pickle of own instances, late imports) made on the
+      # reference's behalf must find the reference's own module set
+      with env.reference_set().active():
+        return fn()
     finally:
       rng.restore(saved)
 
